@@ -69,8 +69,11 @@ def make_case(rng, fmt, model, group=0):
             add("photon", [pref + g], [g], rtype=10, species=g, pseudo="PHOTON")
         ions = [g for g in gas if g in ("H", "C", "O", "He", "N")][:2]
         for g in ions:
-            add("recombine", [g + "+", gsym + "-"], [g, gsym + ("" if group else "0")], alpha=rng.choice([1.0, 0.5]), rtype=6, species=g + "+", ion_mass=MASS[g])
-        add("ecapture", ["e-", gsym + ("" if group else "0")], [gsym + "-"], rtype=20)
+            # the charged grain may be named before or after the ion: the rate is built from the ion's mass either way
+            rr = [g + "+", gsym + "-"]
+            add("recombine", rr[::-1] if rng.random() < 0.5 else rr, [g, gsym + ("" if group else "0")], alpha=rng.choice([1.0, 0.5]), rtype=6, species=g + "+", ion_mass=MASS[g])
+        ec = ["e-", gsym + ("" if group else "0")]
+        add("ecapture", ec[::-1] if rng.random() < 0.5 else ec, [gsym + "-"], rtype=20)
         for _ in range(rng.randint(2, 4)):
             a, b = rng.choice(gas), rng.choice(gas)
             add("surface", [pref + a, pref + b], [pref + rng.choice(gas)], alpha=rng.choice([0.0, 500.0, 1200.0, 2500.0]), rtype=13, pair=[a, b])
